@@ -25,6 +25,9 @@ REPS = [
     {"mode": "rep", "shapes": [[6, 6]], "rank": 2, "fd": True},
     {"mode": "rep", "shapes": [[2, 3, 2]], "block": 2},
     {"mode": "shard", "shapes": [[6, 5]], "rank": 1},
+    # reset_preconditioner: documented to behave like beta2 = 1.0 otherwise - used for behaviours whose beta2
+    # IS 1; the optimizer is then given beta2 = 0.75 together with reset_preconditioner=True
+    {"mode": "rep", "shapes": [[6, 6], [5]], "rank": 2, "fd": True, "reset": True},
 ]
 TOL = {"norm": 1e-5, "cosine": 1e-5, "graft_step": 1e-6, "graft_closed_form": 1e-5,
        "tf_norm": 1e-5, "tf_cosine": 1e-5, "tf_graft_step": 1e-6, "zero_direction_steps": None}
@@ -55,9 +58,11 @@ def ds_jobs(ck, beh):
   for i, b in enumerate(beh):
     rep = REPS[i % len(REPS)]
     c = dict(b["cfg"])
+    if rep.get("reset") and c["b2"][0] != 2 ** c["b2"][1]:
+      rep = REPS[5]                       # same FD representation without the reset option
     jobs.append({"cfg": c, "rep": rep, "steps": b["steps"], "seed": ck.seed * 10000 + i,
                  "sparse": i % 3 == 0, "diag_eps": [1e-10, 2.0 ** -6][(i // 2) % 2],
-                 "sig": f"{c['graft']}|{rep['mode']}|rank{rep.get('rank', 0)}{'|fd' if rep.get('fd') else ''}"})
+                 "sig": f"{c['graft']}|{rep['mode']}|rank{rep.get('rank', 0)}{'|fd' if rep.get('fd') else ''}{'|reset' if rep.get('reset') else ''}"})
   return jobs
 
 
